@@ -133,5 +133,17 @@ bounded_only('C10', 'bounded.c10',
     {'quick': '2500 pairs', 'thorough': '25000 pairs, 8 hash seeds'})
 bounded_only('C12', 'bounded.c12',
     'Bounded stand-in only: is_empty, is_finite, generating/nullable/reachable sets and get_words(n) (multiset equality, n=0..4 and unbounded on finite languages under a step budget) against fixpoint oracles.',
-    CFG_NOTE, ['CFG.is_empty', 'is_finite', 'get_generating_symbols', 'get_nullable_symbols', 'get_reachable_symbols', 'get_words'], CFG_RULE.replace('up to 3 productions = 12384', 'up to 2 productions = 904'),
-    {'quick': '904 exhaustive + 1500 random grammars', 'thorough': '12384 exhaustive + 15000 random, 8 hash seeds'})
+    CFG_NOTE, ['CFG.is_empty', 'is_finite', 'get_generating_symbols', 'get_nullable_symbols', 'get_reachable_symbols', 'get_words'], CFG_RULE,
+    {'quick': '12384 exhaustive + 1500 random grammars', 'thorough': '124k exhaustive + 15000 random, 8 hash seeds'})
+
+PDA_NOTE = 'Trusted: specs/pda.py (exact PDA membership for a given word by saturation of pop/reach summaries - no stack bound), specs/cfg.py, specs/fa.py; languages compared on words of length <= 3; symbols are strings (to_pda stringifies values).'
+bounded_only('C13', 'bounded.c13',
+    'Bounded stand-in only: to_final_state, to_empty_stack, to_cfg on random small PDAs (<=3 states, <=3 stack symbols, <=5 transitions, pushes of 0-3 symbols, epsilon moves, reserved fresh names present) and to_pda / to_pda().to_cfg() on the enumerated grammars, against an exact PDA membership oracle in both acceptance modes.',
+    PDA_NOTE, ['CFG.to_pda', 'PDA.to_cfg', 'PDA.to_final_state', 'PDA.to_empty_stack', 'get_next_free', 'CFGVariableConverter', 'pda.TransitionFunction'],
+    'case = one PDA or one grammar; non-trivial PDA = accepts some word of length <=2 in some mode and has a transition pushing >=2 symbols; non-trivial grammar as in C08',
+    {'quick': '2500 random PDAs + 904 exhaustive + 600 random grammars; words <=3', 'thorough': '25000 PDAs + 12384 + 6000 grammars, 8 hash seeds'})
+bounded_only('C11', 'bounded.c11',
+    'Bounded stand-in only: cfg.intersection / & and pda.intersection with a regular language given as Regex, DFA, NFA or eps-NFA object (incl. deterministic automata presented as NFA/eps-NFA objects, partly overlapping alphabets, empty operands) against the product of the reference semantics; other operand types must raise NotImplementedError.',
+    PDA_NOTE, ['CFG.intersection', 'CFG._intersection_*', 'PDA.intersection', '_PDAStateConverter', 'CFGVariableConverter'],
+    'case = (grammar | PDA) x regular operand with the class it is presented as; non-trivial = both operands have a non-empty language',
+    {'quick': '1500 grammar pairs + 1500 PDA pairs + operand-type cases; words <=3', 'thorough': '15000 + 15000 pairs, 8 hash seeds'})
